@@ -238,7 +238,7 @@ class Gen:
             k = r.weighted([('mark', 6), ('assign', 5 if not self.scoping else 9), ('markv', 5), ('if', 3), ('while', 3), ('for', 3), ('foreach', 3),
                             ('switch', 2), ('call', 3 if not self.scoping else 6), ('apply', 2), ('select', 2), ('try', 2),
                             ('private', 1 if not self.scoping else 4), ('exitwith', 1), ('global', 2 if not self.scoping else 5), ('arrvar', 1),
-                            ('excst', 3 if self.errors else 0)])
+                            ('excst', 3 if self.errors else 0), ('whilescope', 2 if self.scoping else 1), ('loopscope', 2 if self.scoping else 1)])
         self.note(k)
         if k == 'mark':
             return ('mark', self.num(env))
@@ -300,6 +300,15 @@ class Gen:
             if r.chance(1, 2):
                 return ('callst', None, self.block(env, depth + 1))
             return ('callst', self.num(env), self.block(self.sub(env, this=True), depth + 1))
+        if k == 'whilescope':
+            # does a local declared in the body survive into the next evaluation of the condition (or body)?
+            c = self.fresh('_c')
+            w = self.fresh('_w')
+            return ('whilescope', c, 1 + r.below(3), w, self.block(self.sub(env, ro=env['ro'] + [c]), depth + 1))
+        if k == 'loopscope':
+            # the same question for for / forEach bodies: a local of one iteration is gone in the next
+            w = self.fresh('_w')
+            return ('loopscope', r.choice(['for', 'foreach']), 1 + r.below(3), w)
         if k == 'excst':
             return self.handler(env, depth, False)
         if k == 'apply':
@@ -438,6 +447,17 @@ def render(n):
         c, lim, blk = n[1], n[2], n[3]
         body = render_block(blk)
         return '%s = 0; while {%s < %d} do { %s = %s + 1; %s' % (c, c, lim, c, c, body[2:])
+    if k == 'whilescope':
+        c, lim, w, blk = n[1:5]
+        body = render_block(blk)
+        return ('%s = 0; while {tr pushBack (if (isNil "%s") then {0} else {1}); %s < %d} do { tr pushBack (if (isNil "%s") then {2} else {3}); '
+                '%s = %s + 1; private %s = 5; %s' % (c, w, c, lim, w, c, c, w, body[2:]))
+    if k == 'loopscope':
+        kind, cnt, w = n[1:4]
+        body = '{ tr pushBack (if (isNil "%s") then {0} else {1}); private %s = 7; tr pushBack %s }' % (w, w, w)
+        if kind == 'for':
+            return 'for "_i" from 1 to %d do %s' % (cnt, body)
+        return '%s forEach [%s]' % (body, ', '.join('1' for _ in range(cnt)))
     if k == 'for':
         v, a, b, step, blk = n[1:6]
         return 'for "%s" from %d to %d%s do %s' % (v, a, b, '' if step is None else ' step %d' % step, render_block(blk))
@@ -816,6 +836,30 @@ class Interp:
                     self.assign(c, self.lookup(c) + 1)
                     return self.run_block(blk)
                 last = self.in_scope(it)
+            return NIL
+        if k == 'whilescope':
+            c, lim, w, blk = n[1:5]
+            self.assign(c, 0)
+
+            def cond():
+                self.mark(0 if self.lookup(w) is NIL else 1)
+                return self.lookup(c) < lim
+            while self.in_scope(cond):
+                def it():
+                    self.mark(2 if self.lookup(w) is NIL else 3)
+                    self.assign(c, self.lookup(c) + 1)
+                    self.assign(w, 5, private=True)
+                    return self.run_block(blk)
+                self.in_scope(it)
+            return NIL
+        if k == 'loopscope':
+            kind, cnt, w = n[1:4]
+            for i in range(cnt):
+                def it():
+                    self.mark(0 if self.lookup(w) is NIL else 1)
+                    self.assign(w, 7, private=True)
+                    self.mark(self.lookup(w))
+                self.in_scope(it, {'_i': i + 1} if kind == 'for' else {'_x': 1, '_foreachindex': i})
             return NIL
         if k == 'for':
             v, a, b, step, blk = n[1:6]
